@@ -277,7 +277,8 @@ func RenameParams(fset *token.FileSet, pkgs []*packages.Package, known map[strin
 				for _, nm := range ren {
 					want[nm] = true
 				}
-				ast.Inspect(fd, func(x ast.Node) bool {
+				// (inside the body and in nested function signatures; the function's own signature is outside the scope of its parameters)
+				ast.Inspect(fd.Body, func(x ast.Node) bool {
 					if id, ok := x.(*ast.Ident); ok && want[id.Name] {
 						o := info.Uses[id]
 						if o == nil {
@@ -373,6 +374,9 @@ type normalizer struct {
 	src     map[string]string // filename -> content
 	newFn   map[*types.Func]*ast.FuncDecl
 	leaf    map[*types.Func]bool
+	kind    map[*types.Func]string
+	tail    ast.Stmt // the statement after which the current function returns (last statement of its body)
+	inTail  bool
 	counter int
 	res     *Result
 	file    *ast.File
@@ -425,36 +429,44 @@ func Normalize(fset *token.FileSet, pkgs []*packages.Package, known map[string]b
 			})
 		}
 		// leaf = unknown helper whose own body calls no unknown helper (bottom-up: deeper levels in later passes)
-		inlinable := map[*types.Func]bool{}
+		// "plain": can be inlined anywhere; "defer": only where the call is the last thing its function does (the
+		// deferred calls then run at the same moment); "no": not at all
+		kind := map[*types.Func]string{}
 		for obj, fd := range n.newFn {
-			ok := true
+			k := "plain"
 			ast.Inspect(fd.Body, func(x ast.Node) bool {
 				switch y := x.(type) {
 				case *ast.FuncLit:
 					return false
 				case *ast.DeferStmt:
-					ok = false
+					if k == "plain" {
+						k = "defer"
+					}
 				case *ast.BranchStmt:
 					if y.Tok == token.GOTO {
-						ok = false
-					}
-				case *ast.CallExpr:
-					if id, isId := y.Fun.(*ast.Ident); isId && id.Name == "recover" {
-						ok = false
+						k = "no"
 					}
 				}
 				return true
 			})
-			if sig, isSig := obj.Type().(*types.Signature); isSig && sig.RecvTypeParams() != nil {
-				ok = false
+			if k == "defer" && fd.Type.Results != nil {
+				for _, f := range fd.Type.Results.List {
+					if len(f.Names) > 0 {
+						k = "no" // a deferred call may change a named result after the return values were taken
+					}
+				}
 			}
-			inlinable[obj] = ok
+			if sig, isSig := obj.Type().(*types.Signature); isSig && sig.RecvTypeParams() != nil {
+				k = "no"
+			}
+			kind[obj] = k
 		}
+		n.kind = kind
 		for obj, fd := range n.newFn {
-			leaf := inlinable[obj]
+			leaf := kind[obj] != "no"
 			ast.Inspect(fd.Body, func(x ast.Node) bool {
 				if call, ok := x.(*ast.CallExpr); ok {
-					if callee := n.calleeOf(call); callee != nil && n.newFn[callee] != nil && inlinable[callee] && callee != obj {
+					if callee := n.calleeOf(call); callee != nil && n.newFn[callee] != nil && kind[callee] != "no" && callee != obj {
 						leaf = false
 					}
 				}
@@ -500,6 +512,10 @@ func Normalize(fset *token.FileSet, pkgs []*packages.Package, known map[string]b
 					continue
 				}
 				caller := fd.Name.Name
+				n.tail = nil
+				if len(fd.Body.List) > 0 {
+					n.tail = fd.Body.List[len(fd.Body.List)-1]
+				}
 				eds = append(eds, n.rewriteBlock(fd.Body, caller)...)
 			}
 			if len(eds) > 0 {
@@ -548,6 +564,9 @@ func (n *normalizer) target(e ast.Expr) (*ast.CallExpr, *types.Func, bool) {
 	}
 	callee := n.calleeOf(call)
 	if callee == nil || n.newFn[callee] == nil || !n.leaf[callee] {
+		return nil, nil, false
+	}
+	if n.kind[callee] == "defer" && !n.inTail {
 		return nil, nil, false
 	}
 	return call, callee, neg
@@ -704,6 +723,10 @@ func (n *normalizer) rewriteStmt(s ast.Stmt, caller string) []edit {
 		n.res.Skipped = n.res.Skipped[:x.skp]
 		n.counter = x.cnt
 	}
+	_, isRet := s.(*ast.ReturnStmt)
+	_, isExpr := s.(*ast.ExprStmt)
+	n.inTail = isRet || (isExpr && s == n.tail)
+	defer func() { n.inTail = false }()
 	s0 := take()
 	eds, matched := n.rewriteStmt1(s, caller)
 	if matched {
@@ -945,7 +968,9 @@ func (n *normalizer) inline(call *ast.CallExpr, callee *types.Func, caller strin
 		case *ast.FuncLit:
 			return false
 		case *ast.DeferStmt:
-			bad = "defer"
+			if !n.inTail {
+				bad = "defer"
+			}
 		case *ast.BranchStmt:
 			if y.Tok == token.GOTO {
 				bad = "goto"
